@@ -48,32 +48,15 @@ KINDS = {
 }
 
 
-def pin(sym):
-    """failing path only: fix every still-symbolic input to one feasible value (constraint, not branch); see C39"""
-    if not getattr(sym, "symbolic", False):
-        return
-    import z3
-    from crosshair.statespace import context_statespace
-    from crosshair.tracers import NoTracing
-    with NoTracing():
-        space = context_statespace()
-        if space.solver.check() != z3.sat:
-            return
-        model = space.solver.model()
-        for v in list(sym.vals.values()):
-            var = getattr(v, "var", None)
-            if var is not None:
-                space.add(var == model.evaluate(var, model_completion=True))
-
-
 def fail(sym, key, detail=""):
-    pin(sym)
-    sym.fail(key, detail() if callable(detail) else detail)
+    """detail may be a callable: the engine evaluates it under concrete replay only (formatting symbolic values
+    would realise them), and reads the counterexample from a solver model without enumerating value domains"""
+    sym.fail(key, detail)
 
 
 def chk(sym, c, key, detail=""):
     if not c:
-        fail(sym, key, detail)
+        sym.fail(key, detail)
 
 
 def run(fn):
